@@ -516,4 +516,6 @@ def rule_added_total(ctx):
     rule_adaptors(ctx)
 
 
-RULES = [rule_atomicity, rule_request_line, rule_header_lines, rule_overflow, rule_header_order, rule_added_total, rule_host_and_framing, rule_no_body_bytes]
+from .rules_wrappers import rules_for as _rules_for
+_fw_C02 = _rules_for("C02")
+RULES = [rule_atomicity, rule_request_line, rule_header_lines, rule_overflow, rule_header_order, rule_added_total, rule_host_and_framing, rule_no_body_bytes, _fw_C02]
